@@ -599,11 +599,13 @@ LEVEL_TEXT = ("Proved in Lean 4, for ALL byte strings / chunkings / documents, a
               "terminator, no byte dispatched more than twice, on every input in every chunking); chunk_indep/chunk_indep_poll (any partition of a "
               "NUL-free text gives the same value(), also when polled between chunks); rfc_accept/rfc_accept_chunked (every RFC 8259 text - grammar "
               "written from the RFC as an inductive relation: any white space, every number spelling, every escape incl. \\/ and surrogate pairs, "
-              "duplicate keys, nesting <= 1000 - decodes to the value it denotes). The model is tied to the code on every run by the "
+              "duplicate keys, nesting <= 1000 - decodes to the value it denotes); prefix_reject (every text that stops before the final closing "
+              "byte of a top-level array, object or string is rejected, wherever the cut falls; via a frame lemma: a run that does not fault "
+              "is unchanged by contexts added below the stack). The model is tied to the code on every run by the "
               "correspondence check under ASan/UBSan (whole decodes, chunked feeding, prefixes; grammar-generated JSON/XDL, mutations, raw bytes) "
               "and python3 json adjudicates every RFC 8259 document and prefix generated.")
-LEVEL_NOTE = ("Not a theorem yet: prefix_reject (a proper prefix of a top-level array/object/string is rejected) - stated as `def prefix_reject_full`, "
-              "validated by K + python oracle on every prefix of the seed documents and sampled prefixes of all generated documents. "
+LEVEL_NOTE = ("All four planned theorem groups are proved in full (no _partial). rfc_accept and prefix_reject carry the hypothesis nesting <= 1000 "
+              "(the decoder's own limit; the property asks for 512). "
               "XDL-only syntax (bare identifiers, class names, comments, newline separators) has no independent grammar: covered by "
               "parse_safe/chunk_indep and K only. Hypotheses carried by K rather than proved: glibc atof = correctly rounded (AslModel/Strtod.lean), "
               "strtoul on the 4-byte \\u accumulator, C locale, Var/String/Array container semantics (C01-C04). "
